@@ -791,9 +791,9 @@ def oracle(ctx):
     # drawn cases
     n = ctx.scale(200, 8000)
     done = 0
-    while done < n and ctx.time_left() > ctx.scale(85, 700):
+    while done < n and ctx.time_left() > ctx.scale(85, 950):
         cs = random_cases(ctx, min(32, n - done), "orc%d" % done)
-        for case, traces, err in run_cases(ctx, cs, "orc%d" % done, ctx.scale(85, 700)):
+        for case, traces, err in run_cases(ctx, cs, "orc%d" % done, ctx.scale(85, 950)):
             if err:
                 raise RuntimeError("case %r: %s" % (case, err))
             _count_trace(ctx, traces)
@@ -974,7 +974,7 @@ def stress(ctx):
     sw = _sw()
     r = ctx.subrng("stress")
     for it in range(ctx.scale(0, 150)):
-        if ctx.time_left() < 200:
+        if ctx.time_left() < 650:
             break
         root = os.path.join(ctx.tmp, "stress-%d" % it)
         world = sw.World(root)
@@ -1046,17 +1046,23 @@ def replay(ctx, case):
 
 
 MANIFEST = {
-    "text": "Proved in Lean for all interleavings of any number of install / use / gc / builder processes (Props/C15.lean, model "
-            "Model/Share.lean cut at every lock acquisition, unlock-before-flush point, rename and symlink): a visible package is "
-            "complete and matches its recorded hash; a rename publishes only on an absent path and installs = collections + "
-            "present; gc selection removes only candidates unused at scan time, oldest first, shortest prefix meeting the quota; "
-            "dry-run removes nothing. The current code violates `no spurious failure` and `not collected while used`: the model "
-            "contains the witnesses (closed terms checked by the kernel), the harness replays them on the real code with real "
-            "processes. The model is tied to the source by executing every segment of drawn interleavings of real processes and "
-            "comparing the reached cut point, result and complete store state with the model.",
-    "note": "trusted: Lean kernel, harness/props/c15.py + harness/gen/shareworld.py (process control through wrapped "
-            "OpenLocked.__enter__/lockFile/unlockFile/os.rename/os.symlink/os.unlink/hashDirectoryWithSize), POSIX rename and "
-            "flock semantics, CPython buffered text files",
+    "text": "Proved in Lean (Props/C15.lean over Model/Share.lean, an interleaving model of LocalShare install/use/gc/__addPackage and "
+            "of the builder's link creation, cut at every open, flock, unlock-before-flush point, rename, symlink) for ALL schedules of "
+            "any number of processes and any consistent initial store: visible_complete (a directory at a final path is complete and a "
+            "readable pkg.json records the hash of its content), lock_exclusion, install_once (#processes whose own rename published "
+            "Build-Id b = #collections + present now - present before; (path, True) iff own rename), gc_policy_* (removed = shortest prefix "
+            "of the unused candidates in (mtime,size,id) order that meets the quota, all unused with --all-unused, used ones only with "
+            "--used, dry-run never moves), not_collected_while_used_partial (every candidate was judged by the links of its recorded "
+            "users at scan time). For the PATCHED OpenLocked.__exit__ (flush before unlock) and an existing repo.json: "
+            "no_spurious_failure_partial and accounting_partial (repo.json = installed packages in every quiescent state). For the current "
+            "code the full statements no_spurious_failure_goal, accounting_goal, not_collected_while_used_goal are refuted by kernel-checked "
+            "witness schedules, each of which the harness replays on the real code with real processes. Tie to the source: every segment "
+            "of drawn interleavings of 1..3 real processes (stopped at the cut points through wrapped OpenLocked.__enter__, lockFile, "
+            "unlockFile, hashDirectoryWithSize, os.rename, os.symlink, os.unlink) is compared with Share.step: cut point reached / blocked / "
+            "result and the complete store (repo.json, packages, pkg.json, mtime order, links).",
+    "note": "trusted: Lean kernel, harness/props/c15.py + harness/gen/shareworld.py (process control), POSIX rename/flock semantics, "
+            "CPython buffered text files; the per-package flock is implicit in the model (segments under it are atomic); quota string "
+            "parsing, CopyMachine hard links, Windows placeholders, NFS are outside the model",
     "technique": "Lean 4 invariant proofs over a hand-written interleaving model + controlled real-process interleavings as "
                  "differential correspondence + property oracle on every intermediate store state",
 }
